@@ -180,6 +180,21 @@ CHECKS = {
         "determinism per seed is checked by byte comparison; no model/code correspondence beyond these predicates (the "
         "function exposes no intermediate values).",
         "5/C13"),
+    "C14": (
+        "Lean 4 proof (invariant by induction over registration histories of any length; refinement to a stateless reference) + step-by-step correspondence on exhaustive and random histories",
+        "Theorems in lean/Dreye/Props/C14.lean prove about the model of the estimator's registration state machine: every "
+        "registration call keeps the stored capture matrix equal to the capture of the currently registered sources (no stale "
+        "cache) for histories of any length; in such a state every closed-form query is answered exactly as a stateless "
+        "reference answers it from the registered values; hence two histories ending in the same registered values give "
+        "identical answers; each call replaces its own value(s) and nothing else (register_bounds keeps the other bound, "
+        "register_system resets the bounds, the adaptation calls read the current baseline). Queries carry no state in the model. "
+        "Every run drives a real ReceptorEstimator through all histories up to a bounded length and random longer ones with "
+        "interleaved query bundles, compares A, K, baseline, bounds, system/relative captures and in_system after EVERY step with "
+        "the Lean state machine, compares engine-backed queries with a fresh twin at the end, and hashes caller arrays.",
+        "Trusted: Lean kernel; engine-backed queries (gamut test, ranges, fits, sampling) are not in the Lean model - they are "
+        "compared with a fresh twin estimator (metamorphic); add=True with a matrix K is not modelled (the harness avoids it); "
+        "fit() with internal targets is exercised in C04, not here; aliasing is a runtime effect checked by hashing.",
+        "5/C14"),
 }
 
 NOT_YET = "check not built yet in this round of work (planned in DESIGN.md section 5); no claim is made"
